@@ -468,6 +468,13 @@ class _Synonyms(ast.NodeTransformer):
     def visit_Subscript(self, n):
         self.generic_visit(n)
         n.slice = self._slice_call(n.slice)
+        # X[M.nonzero()] / X[np.nonzero(M)]  (the whole tuple of index arrays of a mask, not its [0]) selects what X[M] selects, in the same order
+        sl_ = n.slice
+        if isinstance(n.ctx, ast.Load) and isinstance(sl_, ast.Call) and not sl_.keywords:
+            if isinstance(sl_.func, ast.Attribute) and sl_.func.attr == "nonzero" and not sl_.args and not (isinstance(sl_.func.value, ast.Name) and sl_.func.value.id in ("np", "numpy")):
+                n.slice = sl_.func.value
+            elif isinstance(sl_.func, ast.Attribute) and sl_.func.attr == "nonzero" and isinstance(sl_.func.value, ast.Name) and sl_.func.value.id in ("np", "numpy") and len(sl_.args) == 1:
+                n.slice = sl_.args[0]
         # P[a:][k] is P[a + k] ; P[a:][b:] is P[a + b:]    (non-negative integer constants)
         v = n.value
         if isinstance(v, ast.Subscript) and isinstance(v.slice, ast.Slice) and v.slice.upper is None and v.slice.step is None and isinstance(v.slice.lower, ast.Constant) \
